@@ -30,9 +30,9 @@ def ask_moment(drv, p, fmin, fmax, f, e):
 
 
 # ------------------------------------------------------------------------------------------------
-def check_c01(run, drv, ncases):
+def check_c01(run, drv, ncases, start=0):
     rng = run.rng
-    for case in range(ncases):
+    for case in range(start, start + ncases):
         two_d = rng.random() < 0.35
         with warnings.catch_warnings():
             warnings.simplefilter("ignore")
@@ -136,13 +136,13 @@ def trig(d):
     return np.cos(r), np.sin(r), np.cos(2 * r), np.sin(2 * r)
 
 
-def check_c02(run, drv, ncases):
+def check_c02(run, drv, ncases, start=0):
     from ocean_science_utilities.wavespectra import operations as ops
     rng = run.rng
-    for case in range(ncases):
+    for case in range(start, start + ncases):
         with warnings.catch_warnings():
             warnings.simplefilter("ignore")
-            spec, meta = sp.make_2d(rng)
+            spec, meta = sp.make_2d(rng, transpose_aux=(case % 5 == 0), layout=("time_lat" if case % 5 == 0 else None))
             f, d, E = meta["f"], meta["d"], meta["E"]
             run.count("dirgrid_" + meta["dkind"])
             run.count("layout_" + meta["layout"])
@@ -190,10 +190,16 @@ def check_c02(run, drv, ncases):
             # same quadrature for DataArrays and the numba variants
             da = spec.variance_density
             run.case("integrate_spectral_data", key=case)
-            e2 = ops.integrate_spectral_data(da, "direction")
-            if not np.allclose(np.nan_to_num(e2.values), np.nan_to_num(np.where(np.isnan(da.values).any(-1), np.nan, got[0])), rtol=1e-12, atol=1e-300, equal_nan=True):
-                # integrate_spectral_data does not skip NaN: compare only rows without NaN
-                pass
+            e2 = np.asarray(ops.integrate_spectral_data(da, "direction").values, dtype=float)
+            if not np.allclose(e2, got[0], rtol=1e-12, atol=1e-300, equal_nan=True):
+                run.violation("integrate_spectral_data(direction) differs from the spectrum's own e(f) (same quadrature expected)",
+                              dict(d=d.tolist(), got=e2.reshape(-1)[:6].tolist(), want=got[0].reshape(-1)[:6].tolist()))
+            both = np.asarray(ops.integrate_spectral_data(da, ["frequency", "direction"]).values, dtype=float)
+            Ef = np.nan_to_num(E)
+            wantb = np.sum(np.trapezoid(Ef, f, axis=-2) * step, axis=-1)
+            if not np.allclose(both, wantb, rtol=1e-11, atol=1e-300):
+                run.violation("integrate_spectral_data(frequency, direction) differs from the trapezoid-in-f, width-weighted sum in direction",
+                              dict(got=np.asarray(both).reshape(-1)[:4].tolist(), want=np.asarray(wantb).reshape(-1)[:4].tolist()))
             clean = np.nan_to_num(rows[0])
             grid = {"frequency_step": fs, "direction_step": step}
             try:
@@ -219,8 +225,16 @@ def check_c02(run, drv, ncases):
                 if name != "variance_density" and name not in s1d.dataset:
                     run.violation("as_frequency_spectrum drops a non-spectral variable", dict(name=str(name)))
             for name in ("time", "latitude", "longitude", "depth"):
-                if not np.array_equal(np.asarray(spec.dataset[name].values), np.asarray(s1d.dataset[name].values), equal_nan=True):
-                    run.violation("as_frequency_spectrum changes time/position/depth", dict(name=name))
+                a_, b_ = spec.dataset[name], s1d.dataset[name]
+                same = a_.dims == b_.dims and np.array_equal(np.asarray(a_.values), np.asarray(b_.values), equal_nan=True)
+                if not same and set(a_.dims) == set(b_.dims):
+                    same = np.array_equal(np.asarray(a_.values), np.asarray(b_.transpose(*a_.dims).values), equal_nan=True)
+                if not same:
+                    run.violation("as_frequency_spectrum changes time/position/depth", dict(name=name, dims_before=a_.dims, dims_after=b_.dims))
+            with np.errstate(all="ignore"):
+                d2, d1 = np.asarray(spec.depth.values, dtype=float), np.asarray(s1d.depth.transpose(*spec.depth.dims).values if s1d.depth.dims else s1d.depth.values, dtype=float)
+                if not np.array_equal(d2, d1):
+                    run.violation("depth of the 1D reduction differs from the 2D spectrum's depth", dict(layout=meta["layout"]))
             with np.errstate(all="ignore"):
                 for nm, fn in (("m0", lambda s: s.m0().values), ("hm0", lambda s: s.hm0().values),
                                ("tm01", lambda s: s.tm01().values), ("tm02", lambda s: s.tm02().values)):
@@ -241,7 +255,7 @@ def check_c02(run, drv, ncases):
 
 
 # ------------------------------------------------------------------------------------------------
-def check_c03(run, drv, ncases, thorough):
+def check_c03(run, drv, ncases, thorough, start=0):
     rng = run.rng
     from ocean_science_utilities.wavespectra.spectrum import WaveSpectrum
     import xarray
@@ -270,7 +284,7 @@ def check_c03(run, drv, ncases, thorough):
             if abs(sd - w) > 1e-9 or not (0 <= sd <= 81.03):
                 run.violation("spread is not sqrt(2(1-sqrt(a^2+b^2))) in degrees within [0, 81.03]", dict(a=a, b=b, got=sd))
     # band means against the exact model
-    for case in range(ncases):
+    for case in range(start, start + ncases):
         with warnings.catch_warnings():
             warnings.simplefilter("ignore")
             spec, meta = sp.make_1d(rng, nan_rate=0.05)
@@ -306,12 +320,27 @@ def check_c03(run, drv, ncases, thorough):
                         run.violation("mean_direction is not atan2 of the band-averaged moments", dict(band=(fmin, fmax)))
                     if not np.allclose(sd, np.degrees(np.sqrt(2 - 2 * np.sqrt(A * A + B * B))), atol=1e-9, equal_nan=True):
                         run.violation("mean_directional_spread does not follow its definition", dict(band=(fmin, fmax)))
+                    # peak variants use the moments at the peak frequency of the band
+                    if ((f >= fmin) & (f < fmax)).any() and not np.isnan(e).all(axis=-1).any():
+                        pk = np.asarray(spec.peak_index(fmin, fmax).values).reshape(-1)
+                        pdv = np.asarray(spec.peak_direction(fmin, fmax).values, dtype=float).reshape(-1)
+                        psv = np.asarray(spec.peak_directional_spread(fmin, fmax).values, dtype=float).reshape(-1)
+                        a1m, b1m = sp.members(meta["moments"][0], 1), sp.members(meta["moments"][1], 1)
+                        for i in range(len(pk)):
+                            aa, bb = a1m[i][int(pk[i])], b1m[i][int(pk[i])]
+                            wd = math.degrees(math.atan2(bb, aa)) if aa == aa and bb == bb else float("nan")
+                            ws = math.degrees(math.sqrt(max(0.0, 2 - 2 * math.hypot(aa, bb)))) if aa == aa and bb == bb else float("nan")
+                            run.case("peak_dir", key=(case, fmin, fmax, i))
+                            if not ((wd != wd and pdv[i] != pdv[i]) or abs(pdv[i] - wd) <= 1e-9):
+                                run.violation("peak_direction is not atan2(b1, a1) at the peak frequency of the band", dict(band=(fmin, fmax), got=float(pdv[i]), want=wd))
+                            if not ((ws != ws and psv[i] != psv[i]) or abs(psv[i] - ws) <= 1e-9):
+                                run.violation("peak_directional_spread does not follow its definition at the peak frequency of the band", dict(band=(fmin, fmax), got=float(psv[i]), want=ws))
                     pfd = np.asarray(spec.mean_direction_per_frequency.values, dtype=float)
                     a1v, b1v = meta["moments"][0], meta["moments"][1]
                     if not np.allclose(pfd, np.degrees(np.arctan2(b1v, a1v)), atol=1e-9, equal_nan=True):
                         run.violation("mean_direction_per_frequency does not follow its definition", {})
     # rotation / mirror on the implementation
-    for case in range(max(4, ncases // 4)):
+    for case in ([start] if start % 4 == 0 else []):
         with warnings.catch_warnings():
             warnings.simplefilter("ignore")
             nd = rng.choice([8, 12, 16, 24, 36, 72])
@@ -394,10 +423,10 @@ def peaky_energy(rng, shape):
     return e
 
 
-def check_c04(run, drv, ncases):
+def check_c04(run, drv, ncases, start=0):
     from ocean_science_utilities.wavetheory.lineardispersion import intrinsic_dispersion_relation
     rng = run.rng
-    for case in range(ncases):
+    for case in range(start, start + ncases):
         with warnings.catch_warnings():
             warnings.simplefilter("ignore")
             two_d = rng.random() < 0.3
@@ -489,14 +518,18 @@ def main(prop, tier, seed):
     thorough = tier == "thorough"
     drv = common.Driver()
     try:
+        def cases(fn, n, *extra):
+            for i in range(n):
+                with common.guard(run, f"{prop} case {i}"):
+                    fn(run, drv, 1, *extra, start=i)
         if prop == "C01":
-            check_c01(run, drv, 600 if thorough else 60)
+            cases(check_c01, 600 if thorough else 60)
         elif prop == "C02":
-            check_c02(run, drv, 800 if thorough else 80)
+            cases(check_c02, 800 if thorough else 80)
         elif prop == "C03":
-            check_c03(run, drv, 400 if thorough else 40, thorough)
+            cases(check_c03, 400 if thorough else 40, thorough)
         elif prop == "C04":
-            check_c04(run, drv, 800 if thorough else 80)
+            cases(check_c04, 800 if thorough else 80)
     finally:
         drv.close()
     return run.finish(aud, ASSUMPTIONS, RULES[prop])
